@@ -13,9 +13,11 @@ import (
 	"encoding/binary"
 	"fmt"
 	"io"
+	"net"
 	"runtime"
 	"runtime/debug"
 	"strings"
+	"sync"
 	"sync/atomic"
 	"time"
 
@@ -314,7 +316,7 @@ func archiveTour(res *core.Result, r *core.RNG, preRegistered bool) (*sim, error
 		d := s.addDevice(1000)
 		s.send(d, 100, 300)
 		s.send(d, 99, 310)
-		s.send(d, 99, 311) // a banned slot: the week archived by a later rotation carries the ban marker, signed as such
+		s.send(d, 99, 311)  // a banned slot: the week archived by a later rotation carries the ban marker, signed as such
 		s.send(d, 98, 5000) // over capacity: banned too
 	}
 	s.archiveOnce(nil, "quiet")
@@ -420,6 +422,101 @@ func archiveTour(res *core.Result, r *core.RNG, preRegistered bool) (*sim, error
 	return s, nil
 }
 
+// the very first requests a freshly started server sees arrive together, and requests to a server that
+// still waits for its GCA (every one of them fails after the limiter): in both cases at most `limit`
+// requests per window get past the limiter -- everything else is answered 429
+func archiveAdmissionTour(res *core.Result, r *core.RNG) (*sim, error) {
+	rate := time.Duration(server.VerifConsts()["apiArchiveRateMs"]) * time.Millisecond
+	limit := int(server.VerifConsts()["apiArchiveLimit"])
+	// (a) unregistered server, sequential burst inside one window
+	s, err := newSim(res, r, "archive-admission", 500, true)
+	if err != nil {
+		return nil, err
+	}
+	w := s.w
+	for attempt := 0; attempt < 4; attempt++ {
+		time.Sleep(rate + 15*time.Millisecond)
+		t0 := time.Now()
+		past := 0
+		for i := 0; i < 10; i++ {
+			if rr := w.Raw("GET", "/api/v1/archive", nil); rr.Status != 429 && rr.Status != 0 {
+				past++
+			}
+		}
+		if time.Since(t0) >= rate {
+			res.Discarded++
+			continue
+		}
+		res.Count("archive.admission-unregistered")
+		if past > limit {
+			s.fail(fmt.Sprintf("%d of 10 archive requests to a server that still waits for its GCA got past the limiter within %v (limit %d per %v): requests that fail later are not counted", past, time.Since(t0), limit, rate), "c14-failed-requests-uncounted")
+		}
+		break
+	}
+	// (b) a fresh server's first requests, all at once
+	s.register("valid")
+	if d := s.addDevice(1000); d != nil {
+		s.send(d, w.Now, 300)
+	}
+	type one struct {
+		st   int
+		a, b time.Time
+	}
+	for round := 0; round < 6 && s.alive; round++ {
+		s.restart(w.Now) // a freshly started process: nothing has asked for an archive yet
+		hp, _, _ := w.S.Ports()
+		// connections are opened first, the requests are written at the same moment
+		conns := make([]net.Conn, 0, 24)
+		for g := 0; g < 24; g++ {
+			if c, err := net.DialTimeout("tcp", fmt.Sprintf("127.0.0.1:%d", hp), 2*time.Second); err == nil {
+				conns = append(conns, c)
+			}
+		}
+		var wg sync.WaitGroup
+		start := make(chan struct{})
+		outs := make([]one, len(conns))
+		for g, c := range conns {
+			wg.Add(1)
+			go func(g int, c net.Conn) {
+				defer wg.Done()
+				defer c.Close()
+				<-start
+				a := time.Now()
+				c.SetDeadline(time.Now().Add(5 * time.Second))
+				c.Write([]byte("GET /api/v1/archive HTTP/1.1\r\nHost: x\r\nConnection: close\r\n\r\n"))
+				b, _ := io.ReadAll(c)
+				st := 0
+				if len(b) > 12 {
+					fmt.Sscanf(string(b[9:12]), "%d", &st)
+				}
+				outs[g] = one{st, a, time.Now()}
+			}(g, c)
+		}
+		time.Sleep(2 * time.Millisecond)
+		close(start)
+		wg.Wait()
+		served, lo, hi := 0, time.Time{}, time.Time{}
+		for _, o := range outs {
+			if o.st == 200 {
+				served++
+				if lo.IsZero() || o.a.Before(lo) {
+					lo = o.a
+				}
+				if o.b.After(hi) {
+					hi = o.b
+				}
+			}
+		}
+		res.Count("archive.admission-first-burst")
+		if served > limit && hi.Sub(lo) < rate {
+			s.fail(fmt.Sprintf("%d of the %d first requests a freshly started server received together were served an archive within %v (limit %d per %v)", served, len(conns), hi.Sub(lo), limit, rate), "c14-first-burst")
+			break
+		}
+		time.Sleep(rate + 10*time.Millisecond)
+	}
+	return s, nil
+}
+
 // overlapping downloads right after a failed one: an archive request on a server that still waits for
 // its GCA is answered with an error; then the GCA registers, a device reports, and pairs of downloads
 // overlap (the second runs completely while the first sits between two files).  Every archive must be
@@ -509,8 +606,13 @@ func archiveWorker(res *core.Result, r *core.RNG, tier, out string) error {
 			return err
 		}
 		so.finish(&items)
+		sa, err := archiveAdmissionTour(res, r.Fork())
+		if err != nil {
+			return err
+		}
+		sa.finish(&items)
 	}
-	res.Required = []string{"archive.request", "archive.tour", "archive.limiter-sliding", "archive.overlapping-downloads"}
+	res.Required = []string{"archive.request", "archive.tour", "archive.limiter-sliding", "archive.overlapping-downloads", "archive.admission-unregistered", "archive.admission-first-burst"}
 	res.Rule = "every (gap between two archived files x write burst {new device + first report, registration + first device, rotation}) combination, quiet archives, request bursts against the limiter (burst and sliding-window pattern), pairs of overlapping downloads right after a refused one; zip opened with archive/zip and checked with the real Verify; non-trivial = archive taken with a burst in a gap; distinct by full history"
 	return writeServerCases(res, out, "archive", items)
 }
